@@ -995,8 +995,14 @@ theorem sp_append (P R : List Ent) : sp (P ++ R) = sp P ++ sp R := by simp [sp]
 def LegalEnt (e : Ent) : Prop :=
   (e.2 = '+' → e.1 = "+") ∧ (e.2 ≠ '+' → IsDom e.1.toList) ∧ (e.2 = '(' ∨ e.2 = ')' ∨ e.2 = '.' ∨ e.2 = '+')
 
+/-- what may follow a kernel pattern: not a character that continues a name, and no further item of a pattern
+    (in particular: the end of the text, or a character that is neither an identifier character nor `+`) -/
 def TailOK (X : List Char) : Prop :=
-  OutHd NameEnd X ∧ ∃ c0 t, skipIgn X = c0 :: t ∧ c0 ∉ identChars ∧ c0 ≠ '+'
+  OutHd NameEnd X ∧ No pil_env 12 {} itemG { rest := X, past := false }
+
+theorem TailOK.of_cons (X : List Char) (h : OutHd NameEnd X) (c0 : Char) (t : List Char) (e1 : skipIgn X = c0 :: t)
+    (e2 : c0 ∉ identChars) (e3 : c0 ≠ '+') : TailOK X :=
+  ⟨h, No_item_at pil_env { rest := X, past := false } c0 t e1 e2 e3⟩
 
 theorem OutHd_sp (R : List Ent) (X : List Char) (h : OutHd NameEnd X) : OutHd NameEnd (sp R ++ X) := by
   cases R with
@@ -1212,9 +1218,8 @@ theorem kernel_sim : ∀ f : Nat,
       | nil =>
         simp only [pItems, Option.some.injEq, Prod.mk.injEq] at h
         obtain ⟨rfl, rfl⟩ := h
-        obtain ⟨_, c0, t, e1, e2, e3⟩ := hX
-        have := OkMany_stop (No_item_at pil_env { rest := sp [] ++ X, past := false } c0 t
-          (by simpa [sp] using e1) e2 e3)
+        have := OkMany_stop (show No pil_env 12 {} itemG { rest := sp [] ++ X, past := false } by
+          simpa [sp] using hX.2)
         intro reps fuel hr hf
         exact this reps fuel (by omega) (by omega)
       | cons e R0 =>
@@ -1487,16 +1492,19 @@ theorem cplx_parts (nc : Char) (m : List Char) (L : List Ent) (toks : List Tree)
             simp only [sp, List.map_nil, List.flatten_nil, List.nil_append] at this
             simp only [List.length_cons, List.length_nil] at la this ⊢
             exact this.mono (by omega)
-  obtain ⟨hX1, c0, t, e1, e2, e3⟩ := hX
+  obtain ⟨hX1, hX2⟩ := hX
   have h1 := Ok_ident pil_env 0 nc m (' ' :: '=' :: (sp L ++ X)) hnc hm
     (OutHd_cons _ _ _ (outside_facts ' ' (by decide)))
   have h2 := Ok_punct pil_env 1 '=' (sp L ++ X) (by decide) (by decide)
   have hstop : No pil_env 15 {} (.group (.ref "pattern")) { rest := X, past := false } :=
-    No_group (No_ref pattern_lookup (No_many1 (No_item_at pil_env { rest := X, past := false } c0 t e1 e2 e3)))
+    No_group (No_ref pattern_lookup (No_many1 hX2))
   have h3 := Ok_many1 (Ok_group (Ok_ref pattern_lookup hpat)) (OkMany_stop hstop)
   have hconc : No pil_env 8 {} pil_conc { rest := X, past := false } := by
     unfold pil_conc
-    have hp1 := No_punct pil_env { rest := X, past := false } '@' c0 t e1 (hat c0 t e1)
+    have hp1 : No pil_env 2 {} (.suppress (.lit ['@'])) { rest := X, past := false } := by
+      cases hsk : skipIgn X with
+      | nil => exact No_suppress (No_lit pil_env {} ['@'] _ (by rw [pre_skip, hsk]; rfl))
+      | cons c0 t => exact No_punct pil_env { rest := X, past := false } '@' c0 t hsk (hat c0 t hsk)
     exact (No_alt (NoAlt_cons (No_group (No_seq (NoSeq_head hp1)))
       (NoAlt_cons (No_group (No_seq (NoSeq_head hp1))) (NoAlt_nil pil_env _ _)))).mono (by decide)
   have h4 := Ok_opt_none hconc
@@ -1507,13 +1515,13 @@ theorem cplx_parts (nc : Char) (m : List Char) (L : List Ent) (toks : List Tree)
   exact ⟨h1, h2, h3', h4⟩
 
 theorem TailOK_nl : TailOK ['\n'] :=
-  ⟨OutHd_cons _ _ _ ⟨outside_facts '\n' (by decide), by decide, by decide, by decide⟩,
-    '\n', [], skipIgn_cons '\n' [] (by decide) (by decide), outside_facts '\n' (by decide), by decide⟩
+  TailOK.of_cons _ (OutHd_cons _ _ _ ⟨outside_facts '\n' (by decide), by decide, by decide, by decide⟩)
+    '\n' [] (skipIgn_cons '\n' [] (by decide) (by decide)) (outside_facts '\n' (by decide)) (by decide)
 
 theorem TailOK_close : TailOK [' ', ')', '\n'] :=
-  ⟨OutHd_cons _ _ _ ⟨outside_facts ' ' (by decide), by decide, by decide, by decide⟩,
-    ')', ['\n'], (by have := skipIgn_blanks_cons 1 ')' ['\n'] (by decide) (by decide); simpa using this),
-    (punct_facts ')' (by decide)).1, by decide⟩
+  TailOK.of_cons _ (OutHd_cons _ _ _ ⟨outside_facts ' ' (by decide), by decide, by decide, by decide⟩)
+    ')' ['\n'] (by have := skipIgn_blanks_cons 1 ')' ['\n'] (by decide) (by decide); simpa using this)
+    (punct_facts ')' (by decide)).1 (by decide)
 
 /-- the alternatives of `pil_stmt` before `pil_cplx` fail on `name = …`, for EVERY identifier `name` (also for a
     name that starts with a statement keyword, and for a name that is a statement keyword) -/
